@@ -14,6 +14,8 @@ import XlModel.Lemmas.CalcAgree
 import XlModel.Lemmas.CalcInt
 import XlModel.CalcCheck
 import XlModel.CalcRef
+import XlModel.CalcFloat
+import XlModel.Lemmas.CalcRender
 
 namespace XlModel.Props.C08
 open XlModel XlModel.Calc XlModel.Facts.C08 NumOps
@@ -1736,6 +1738,71 @@ theorem resolve_examples :
     Impl.resolveRef ([[83, 104, 101, 101, 116, 49], [83, 104, 101, 101, 116, 50], [77, 121, 32, 68, 97, 116, 97]] : List Str) [83, 104, 101, 101, 116, 49] [78, 111, 112, 101, 33, 65, 49] = .error (.msg (.lit formulaErrorNAME)) := by
   refine ⟨by decide +kernel, by decide +kernel, by decide +kernel, by decide +kernel,
     by decide +kernel, by decide +kernel, by decide +kernel⟩
+
+/-! ## the final rendering to 15 significant digits -/
+
+/-- clause "result rendering to 15 significant digits" (observe_at: numbers compared to 1e-12):
+the rounding step of the rendering model — the integer nearest to n/d, which the driver uses with
+n/d = |x|·10^(14−k), k = ⌊log10 |x|⌋, and compares with `FormatFloat(x,'G',15)` on every numeric
+transcript line — is within half a unit of the 15th digit of the exact value:
+|v·d − n| ≤ d/2, i.e. a relative error of at most 5·10⁻¹⁵. -/
+theorem render_round_half_unit (n d : Nat) (hd : 0 < d) :
+    let v := CalcFloat.roundAt n d
+    2 * (v * d - n) ≤ d ∧ 2 * (n - v * d) ≤ d := by
+  have hdiv : n = (n / d) * d + n % d := by
+    have := Nat.div_add_mod n d
+    rw [Nat.mul_comm] at this; omega
+  have hlt : n % d < d := Nat.mod_lt n hd
+  simp only [CalcFloat.roundAt]
+  generalize n / d = q at hdiv ⊢
+  generalize n % d = r at hdiv hlt ⊢
+  split
+  · rename_i h
+    have e : (q + 1) * d = q * d + d := by rw [Nat.add_mul, Nat.one_mul]
+    rw [e]
+    constructor <;> omega
+  · rename_i h
+    constructor <;> omega
+
+/-- an exact tie is rounded to the even neighbour (as strconv does) -/
+theorem render_round_ties_even (n d : Nat) (hd : 0 < d) (htie : 2 * (n % d) = d) :
+    CalcFloat.roundAt n d % 2 = 0 := by
+  simp only [CalcFloat.roundAt]
+  have : ¬ 2 * (n % d) > d := by omega
+  by_cases hq : n / d % 2 = 1
+  · simp [this, htie, hq]; omega
+  · simp [this, htie, hq]; omega
+
+/-- a value that is already an integer at the rounding scale is reproduced exactly -/
+theorem render_round_exact (q d : Nat) (hd : 0 < d) : CalcFloat.roundAt (q * d) d = q := by
+  simp only [CalcFloat.roundAt]
+  have h1 : q * d / d = q := Nat.mul_div_cancel q hd
+  have h2 : q * d % d = 0 := Nat.mul_mod_left q d
+  simp [h1, h2]
+  omega
+
+/-- the positional layout of an integer-valued result (decimal point at or beyond the last
+significant digit): exactly the digits followed by the missing zeros, no decimal point -/
+theorem render_layout_integer (ds : List Nat) (dp : Nat) (h1 : 0 < dp) (h2 : ds.length ≤ dp) :
+    CalcFloat.fmtF ds (dp : Int) = ds.map CalcFloat.dch ++ List.replicate (dp - ds.length) 48 := by
+  unfold CalcFloat.fmtF
+  have hpos : (dp : Int) > 0 := by omega
+  have hn : ((ds.length : Int) - (dp : Int)) ≤ 0 := by omega
+  simp only [hpos, if_true, hn, Int.toNat_natCast]
+  rw [CalcFloat.range_getD, List.take_of_length_le h2]
+
+/-- the layouts of the rendering model on digit strings (kernel-evaluated instances):
+`0.3` (digits "3", point position 0), `1.23456789012346E+17`, `1E+21`, `1234567.5`,
+`0.333333333333333`, `0.0001` stays positional, `1E-05` is exponential only after the 15-digit rule -/
+theorem render_layout_examples :
+    CalcFloat.fmtF [3] 0 = [48, 46, 51] ∧
+    CalcFloat.fmtE [1, 2, 3, 4, 5, 6, 7, 8, 9, 0, 1, 2, 3, 4, 6] 18 69 2 =
+      [49, 46, 50, 51, 52, 53, 54, 55, 56, 57, 48, 49, 50, 51, 52, 54, 69, 43, 49, 55] ∧
+    CalcFloat.fmtE [1] 22 69 2 = [49, 69, 43, 50, 49] ∧
+    CalcFloat.fmtF [1, 2, 3, 4, 5, 6, 7, 5] 7 = [49, 50, 51, 52, 53, 54, 55, 46, 53] ∧
+    CalcFloat.fmtF [1] (-3) = [48, 46, 48, 48, 48, 49] ∧
+    CalcFloat.fmtE [1] (-4) 69 2 = [49, 69, 45, 48, 53] := by
+  decide +kernel
 
 /-! ## where the current code deviates from Excel: witnesses on the integer instance -/
 
